@@ -60,6 +60,7 @@ op_cb(void *arg)
 	o->callbacks++;
 	o->rv     = nng_aio_result(o->aio);
 	o->t_done = vs_now();
+	vr_trace("op %s done rv=%d at %llu", o->label, o->rv, (unsigned long long) vs_now());
 	nng_msg *m = nng_aio_get_msg(o->aio);
 	if (o->is_recv && o->rv == 0 && m != nullptr) {
 		nng_msg_free(m);
@@ -103,6 +104,7 @@ struct World {
 	bool                    sock_closed = false; // a close of the socket has RETURNED
 	bool                    sock_closing = false; // a close of the socket has been CALLED
 	int                     slow_rem = 0;         // virtual ms spent in the REM_POST callback
+	int                     slow_pre = 0;         // virtual ms spent in the ADD_PRE callback (the accept path is held meanwhile)
 	std::vector<nng_ctx>    kept_ctxs;            // contexts opened by other threads and not closed by them
 	int                     ctx_opened_during_close = 0;
 	int                     nclose_ok = 0;
@@ -129,6 +131,9 @@ pipe_ev(nng_pipe p, nng_pipe_ev ev, void *arg)
 	World *W = (World *) arg;
 	if (ev == NNG_PIPE_EV_ADD_POST && W->npipes < 16)
 		W->pipes[W->npipes++] = p;
+	vr_trace("pipe ev %d at %llu", (int) ev, (unsigned long long) vs_now());
+	if (ev == NNG_PIPE_EV_ADD_PRE && W->slow_pre > 0)
+		vs_sleep(W->slow_pre); // while this runs the listener has no accept posted: further connections queue at the endpoint
 	if (ev == NNG_PIPE_EV_REM_POST && W->slow_rem > 0)
 		vs_sleep(W->slow_rem); // an application callback that takes its time: the socket close in progress has to wait for it
 }
@@ -267,6 +272,13 @@ exec_c10(const vcase *vc)
 		W.slow_rem = 0;
 	if (W.slow_rem)
 		vr_tag("slow_rem_post_callback");
+	W.slow_pre = (int) vop_arg(wo, 4, 0);
+	if (W.slow_pre < 0 || W.slow_pre > 20)
+		W.slow_pre = 0;
+	if (W.slow_pre) {
+		H_OK(nng_pipe_notify(W.s, NNG_PIPE_EV_ADD_PRE, pipe_ev, &W));
+		vr_tag("slow_add_pre_callback");
+	}
 	switch (tr) {
 	case 0: snprintf(buf, sizeof buf, "inproc://c10-%d", (int) getpid()); break;
 	case 1:
@@ -371,6 +383,30 @@ exec_c10(const vcase *vc)
 					break;
 				W.dialers.push_back(d);
 				(void) nng_dialer_start(d, NNG_FLAG_NONBLOCK);
+				break;
+			}
+			case 8: { // a peer's dial (with a user aio) in progress TOWARDS this socket's listener: one connection occupies the accept
+				  // path (slow ADD_PRE callback), this one waits at the listener; closing the listener / socket must end it
+				if (W.peers.size() >= 6)
+					break;
+				nng_socket p1, p2;
+				if (W.P->peer(&p1) != 0)
+					break;
+				W.peers.push_back(p1);
+				W.peer_open.push_back(true);
+				(void) nng_dial(p1, W.url.c_str(), NULL, NNG_FLAG_NONBLOCK);
+				if (vop_arg(o, 1, 0))
+					vs_settle(); // the first connection is inside the callback (or done) by now
+				if (W.P->peer(&p2) != 0)
+					break;
+				W.peers.push_back(p2);
+				W.peer_open.push_back(true);
+				nng_dialer d;
+				if (nng_dialer_create(&d, p2, W.url.c_str()) != 0)
+					break;
+				Op *op = new_op(&W, "peer-dial-aio", false, false);
+				nng_dialer_start_aio(d, NNG_FLAG_NONBLOCK, op->aio);
+				vr_tag("peer_dial_pending");
 				break;
 			}
 			case 7: { // a second listener with a raw peer that connects and then stays silent (pipe stuck negotiating)
@@ -572,7 +608,7 @@ genLine()
 	return gen::exec([]() {
 		std::ostringstream o;
 		if (*pbt::welem<int>({{3, 0}, {2, 1}}) == 0) {
-			o << "pend " << *pbt::welem<int>({{4, 0}, {3, 1}, {3, 2}, {2, 3}, {3, 4}, {3, 5}, {2, 6}, {2, 7}}) << " " << *pbt::range<int>(0, 1);
+			o << "pend " << *pbt::welem<int>({{4, 0}, {3, 1}, {3, 2}, {2, 3}, {3, 4}, {3, 5}, {2, 6}, {2, 7}, {3, 8}}) << " " << *pbt::range<int>(0, 1);
 		} else {
 			int at = *gen::weightedOneOf<int>({{4, gen::element(0, 1, 2)}, {1, pbt::range<int>(0, 40)}});
 			o << "thr " << *pbt::welem<int>({{5, 0}, {3, 1}, {3, 2}, {2, 3}, {3, 4}, {2, 5}, {3, 6}, {2, 7}, {2, 8}, {3, 9}, {3, 10}}) << " " << at << " " << *pbt::range<int>(0, 3);
@@ -587,7 +623,7 @@ gen_c10()
 	std::ostringstream t;
 	int mode = *pbt::welem<int>({{2, 0}, {3, 1}, {3, 2}, {2, 3}});
 	t << "cfg " << *pbt::range<int>(1, 1000000) << " " << mode << " " << (mode == 3 ? *gen::element(5, 20, 50) : *gen::element(10, 30, 60)) << " " << *pbt::range<int>(0, 3) << " " << (mode == 3 ? *gen::element(60, 150, 400) : 400) << " 0\n";
-	t << "world " << *pbt::range<int>(0, kNProtos - 1) << " " << *pbt::welem<int>({{3, 0}, {2, 1}, {2, 2}}) << " " << *pbt::range<int>(0, 2) << " " << *pbt::welem<int>({{3, 0}, {1, 1}, {1, 5}}) << "\n";
+	t << "world " << *pbt::range<int>(0, kNProtos - 1) << " " << *pbt::welem<int>({{3, 0}, {2, 1}, {2, 2}}) << " " << *pbt::range<int>(0, 2) << " " << *pbt::welem<int>({{3, 0}, {1, 1}, {1, 5}}) << " " << *pbt::welem<int>({{3, 0}, {1, 2}, {1, 8}}) << "\n";
 	auto lines = *gen::container<std::vector<std::string>>(genLine());
 	for (auto &l : lines)
 		t << l << "\n";
